@@ -45,7 +45,7 @@ func slicesAlong(shape []int, axis int, f func(sliceNo int, offs []int)) {
 
 func c09Gen(rt *rapid.T) c09Case {
 	var c c09Case
-	c.op = rapid.SampledFrom([]string{"ArgMax", "ReduceMax", "ReduceMin", "Softmax", "LogSoftmax"}).Draw(rt, "op")
+	c.op = drawOp(rt, []string{"ArgMax", "ReduceMax", "ReduceMin", "Softmax", "LogSoftmax"})
 	gate := runOpConstraints(c.op)
 	dt := rapid.SampledFrom(gate[0]).Draw(rt, "dtype")
 	shape := genShape(1, 4, 5, 300).Draw(rt, "shape")
